@@ -1,5 +1,5 @@
 /- L0 facts about the accessors, Display and Default of OnBalanceVolume (split from Lemmas/OnBalanceVolume.lean so that a change to one method only invalidates the facts about that method) -/
-import TaRs.Lemmas.OnBalanceVolume
+import TaRs.Lemmas.Core.OnBalanceVolume
 set_option linter.unusedSectionVars false
 namespace TaRs.Gen.OnBalanceVolume
 open TaRs TaRs.Rs
